@@ -10,7 +10,7 @@ one() {
 }
 export -f one; export HERE OUT
 {
-for d in "$HERE"/seeded/*/; do id=$(basename $d); echo "$id $d/patch.diff ''"; done
+for d in "$HERE"/seeded/*/; do id=$(basename $d); grep -q '"obsolete"' "$d/meta.json" && continue; echo "$id $d/patch.diff ''"; done
 python3 - "$HERE/known_findings.json" <<'PY'
 import json,sys
 for f in json.load(open(sys.argv[1]))["findings"]:
